@@ -162,7 +162,7 @@ impl Prop for C12 {
         cfg.formfeed = true;
         match campaign {
             "svgen" | "mutants" => {
-                let mut p = svgen::generate(t, &svgen::Cfg::default());
+                let mut p = svgen::generate_mixed(t, &svgen::Cfg::default());
                 if campaign == "mutants" {
                     p = mutate_tokens(&p, t);
                 }
@@ -203,7 +203,7 @@ impl Prop for C12 {
                 }
             }
             _ => {
-                let p = svgen::generate(t, &svgen::Cfg::default());
+                let p = svgen::generate_mixed(t, &svgen::Cfg::default());
                 let mut fa = Feats::default();
                 let (a, spans) = p.render_spans(t, &TriviaCfg::plain(), &mut fa);
                 // insert `resetall after chosen top-level boundaries (and possibly at the very beginning / end)
